@@ -370,7 +370,12 @@ def rule_shadow(run):
     shadow.run_rule(run, "F-SHADOW")
 
 
-RULES = [rule_front, rule_back, rule_trial, rule_join, rule_literals, rule_shadow, rule_backend_sites, rule_bit_literals]
+def rule_select_default(run):
+    from . import c03
+    c03.rule_select_default(run)
+
+
+RULES = [rule_front, rule_back, rule_trial, rule_join, rule_literals, rule_shadow, rule_backend_sites, rule_bit_literals, rule_select_default]
 LEVEL = "other"
 EXPLANATION = (
     "Conversion matrices decided statically for all widths and values: (front end) the accept/reject decision and "
